@@ -24,6 +24,7 @@ import (
 	"os"
 	"path/filepath"
 	"regexp"
+	"runtime"
 	"runtime/debug"
 	"sort"
 	"strings"
@@ -487,10 +488,11 @@ func c07Recheck(pkgPath string, srcs []vgSrcFile, imp types.Importer, goVersion 
 // one generated package
 
 type c07Case struct {
-	Spec   *vgSpec `json:"spec,omitempty"`
-	Corpus string  `json:"corpus,omitempty"`
-	PkgID  string  `json:"pkg,omitempty"`
-	Source string  `json:"source,omitempty"`
+	Spec   *vgSpec   `json:"spec,omitempty"`
+	GI     *vgGISpec `json:"gi,omitempty"`
+	Corpus string    `json:"corpus,omitempty"`
+	PkgID  string    `json:"pkg,omitempty"`
+	Source string    `json:"source,omitempty"`
 }
 
 type c07Stats struct {
@@ -531,8 +533,16 @@ func c07NontrivialSpec(s *vgSpec, res unused.Result) bool {
 }
 
 func c07RunSpec(res *vx.Result, st *c07Stats, s *vgSpec) {
-	src := vgFileText("p", s.Render(nil))
-	key := s.Key()
+	c07RunSource(res, st, s.Key(), vgFileText("p", s.Render(nil)), s, nil)
+}
+
+// c07RunGI judges one package of the generic-type/interface family.
+func c07RunGI(res *vx.Result, st *c07Stats, g *vgGISpec) {
+	c07RunSource(res, st, g.Key(), g.Source(), nil, g)
+}
+
+// c07RunSource applies both oracles to one generated single-file package; exactly one of s, gi is set.
+func c07RunSource(res *vx.Result, st *c07Stats, key, src string, s *vgSpec, gi *vgGISpec) {
 	c, errs := vgCheck("p", []vgSrcFile{{"p.go", src}}, nil)
 	if len(errs) > 0 {
 		if st.typeErr.Add(1) <= 5 {
@@ -549,7 +559,7 @@ func c07RunSpec(res *vx.Result, st *c07Stats, s *vgSpec) {
 			panic(err)
 		}
 	}); msg != "" {
-		res.Violate("panic|"+key, "unused.Analyzer panicked/failed on a well-typed package: "+msg+"\n"+src, c07Case{Spec: s, Source: src})
+		res.Violate("panic|"+key, "unused.Analyzer panicked/failed on a well-typed package: "+msg+"\n"+src, c07Case{Spec: s, GI: gi, Source: src})
 		return
 	}
 	res.Eval(1)
@@ -557,7 +567,7 @@ func c07RunSpec(res *vx.Result, st *c07Stats, s *vgSpec) {
 	st.objects.Add(int64(len(ur.Used) + len(ur.Unused) + len(ur.Quiet)))
 	st.unusedObjs.Add(int64(len(ur.Unused)))
 	st.quietObjs.Add(int64(len(ur.Quiet)))
-	if len(ur.Unused) > 0 && c07NontrivialSpec(s, ur) {
+	if len(ur.Unused) > 0 && (s == nil || c07NontrivialSpec(s, ur)) {
 		st.nontrivial.Add(1)
 		res.NontrivialN(1)
 	}
@@ -570,12 +580,12 @@ func c07RunSpec(res *vx.Result, st *c07Stats, s *vgSpec) {
 			res.Unassert("zero-reference alias " + m.Name + " not reported in " + key + " (an alias is not a named type in the statement's wording)")
 			continue
 		}
-		res.Violate("zeroref|"+m.Kind+"_"+m.Name+"|"+key, msg, c07Case{Spec: s, Source: src})
+		res.Violate("zeroref|"+m.Kind+"_"+m.Name+"|"+key, msg, c07Case{Spec: s, GI: gi, Source: src})
 	}
 	// supplement (DESIGN C07, rule 10.1): a generated iota group is reported as a whole or not at all;
 	// with the carried-over expression list a partial deletion would still type-check.
-	for i, o := range s.Objs {
-		if o.K != vkGroup {
+	for i := 0; s != nil && i < len(s.Objs); i++ {
+		if s.Objs[i].K != vkGroup {
 			continue
 		}
 		ra, rb := false, false
@@ -589,7 +599,7 @@ func c07RunSpec(res *vx.Result, st *c07Stats, s *vgSpec) {
 		}
 		if ra != rb {
 			res.Violate("constgroup|"+key, fmt.Sprintf("constant group (%s, %s) is reported in part only (%s reported=%v, %s reported=%v)\n%s",
-				s.name(i), s.grpB(i), s.name(i), ra, s.grpB(i), rb, src), c07Case{Spec: s, Source: src})
+				s.name(i), s.grpB(i), s.name(i), ra, s.grpB(i), rb, src), c07Case{Spec: s, GI: gi, Source: src})
 		}
 	}
 	// oracle 1
@@ -606,7 +616,7 @@ func c07RunSpec(res *vx.Result, st *c07Stats, s *vgSpec) {
 	if errs := c07Recheck("p", del.Sources, nil, "go1.26"); len(errs) > 0 {
 		msg := fmt.Sprintf("after removing every object U1000 reports (%s) the package no longer type-checks: %s\n--- package ---\n%s\n--- after deletion ---\n%s",
 			strings.Join(vgUnusedSet(ur), ", "), strings.Join(errs, "; "), src, del.Sources[0].Src)
-		res.Violate("deletion|"+key, msg, c07Case{Spec: s, Source: src})
+		res.Violate("deletion|"+key, msg, c07Case{Spec: s, GI: gi, Source: src})
 	}
 }
 
@@ -824,6 +834,10 @@ func TestVerifC07(t *testing.T) {
 		}
 		if cs.Spec != nil {
 			c07RunSpec(res, st, cs.Spec)
+		} else if cs.GI != nil {
+			for round := 0; round < 16; round++ { // the analyzer walks interfaces in map order
+				c07RunGI(res, st, cs.GI)
+			}
 		} else {
 			c07RunCorpus(res, st, cs.Corpus, cs.PkgID)
 		}
@@ -835,7 +849,7 @@ func TestVerifC07(t *testing.T) {
 	res.SetBudget(vx.Budget(100*time.Second, 17*time.Minute))
 	cpu0 := vgCPU()
 	b := c07Bounds()
-	var sampleN atomic.Int64
+	var sampleN, giDone atomic.Int64
 	part := os.Getenv("VERIF_C07_PART") // development aid: "gen" or "corpora"; empty = everything
 	if part == "corpora" {
 		b.MaxN = 1
@@ -851,12 +865,40 @@ func TestVerifC07(t *testing.T) {
 			}
 		}()
 	}
+	// second family first (small; must not fall victim to the budget): generic struct type x interfaces fixing its type parameter x assignments
+	gis := vgGIEnumerate(3)
+	if part != "corpora" {
+		var next atomic.Int64
+		var wg sync.WaitGroup
+		for w := 0; w < runtime.GOMAXPROCS(0); w++ {
+			wg.Add(1)
+			go func() {
+				defer wg.Done()
+				for {
+					i := int(next.Add(1)) - 1
+					if i >= len(gis) {
+						return
+					}
+					if res.Expired() {
+						res.NotExhaustive("time budget reached in the generic-type/interface family")
+						return
+					}
+					c07RunGI(res, st, gis[i])
+					giDone.Add(1)
+				}
+			}()
+		}
+		wg.Wait()
+		mid := gis[len(gis)*3/4]
+		res.Sample(map[string]any{"key": mid.Key(), "source": mid.Source()})
+	}
 	specs, inadm, noncanon, completed := vgRunTasks(res, b, func(s *vgSpec) {
 		c07RunSpec(res, st, s)
 		if n := sampleN.Add(1); n%200003 == 7 || n == 5000 {
 			res.Sample(map[string]any{"key": s.Key(), "source": vgFileText("p", s.Render(nil))})
 		}
 	})
+	res.Count("generic_interface_family_packages", giDone.Load())
 	res.Count("generated_packages", specs)
 	res.Count("generated_edge_sets_inadmissible", inadm)
 	res.Count("generated_edge_sets_noncanonical(renaming)", noncanon)
